@@ -13,7 +13,7 @@ RULE_TEXT = "obligation = (rule, proto type or construct); evaluations = abstrac
 
 
 def run(ctx) -> None:
-    for name, fn in (("T1", codec.rule_T1), ("T2", codec.rule_T2), ("T2b", codec.rule_T2b), ("T3", codec.rule_T3), ("T4", codec.rule_T4), ("T5", codec.rule_T5), ("Z1", codec.rule_Z1), ("T6", codec.rule_T6), ("T7", codec.rule_T7)):
+    for name, fn in (("T1", codec.rule_T1), ("T2", codec.rule_T2), ("T2b", codec.rule_T2b), ("T3", codec.rule_T3), ("T4", codec.rule_T4), ("T5", codec.rule_T5), ("Z1", codec.rule_Z1), ("T6", codec.rule_T6), ("T7", codec.rule_T7), ("T8", codec.rule_T8)):
         ctx.rules_run.append(name)
         fn(ctx)
     from .c15 import rule_Q1, rule_Q2, rule_Q6
